@@ -67,7 +67,7 @@ pub fn alphabet() -> Vec<Op> {
 pub fn run(tier: Tier, seed: u64) -> i32 {
     let hp = prop();
     let mut rep = Report::new(hp.id, tier, seed, hp.level, hp.rule);
-    rep.rule.push_str("; bounded-exhaustive core: EVERY sequence of length <= 3 (quick) / <= 4 (thorough) over an alphabet of 20 op instances (create file/dir, remove, rename/move, open on names a, A, b, d, d/a, D/b and the invalid a:b) on a FAT12 fixed-root, a FAT16 and a FAT32 volume");
+    rep.rule.push_str("; bounded-exhaustive core: EVERY sequence of length <= 3 (quick) / <= 4 (thorough) over an alphabet of 20 op instances (create file/dir, remove, rename/move, open on names a, A, b, d, d/a, D/b and the invalid a:b) on a FAT12 fixed-root, a FAT16 and a FAT32 volume; plus chains of up to 40 (thorough: every depth 2..48) nested directories with moves of ancestors below the deepest one (refused) and of the deepest one to the top");
     for a in &hp.assumptions {
         rep.assume(a);
     }
@@ -108,6 +108,55 @@ pub fn run(tier: Tier, seed: u64) -> i32 {
     });
     b.exhaustive = true;
     rep.add(b);
+    // deep nesting: a chain of D directories, then moves of an upper one below the deepest (must be refused), of the
+    // deepest to the top (allowed) and lookups through the whole path
+    if !rep.failed() {
+        let depths: Vec<usize> = tier.pick(vec![3, 17, 31, 32, 33, 34, 40], (2..=48).collect());
+        let vols2 = [VolCfg::from_preset(1), VolCfg::from_preset(8), VolCfg::from_preset(12)];
+        let work: Vec<(usize, usize)> = (0..vols2.len()).flat_map(|v| depths.iter().map(move |d| (v, *d))).collect();
+        let hp_ref = &hp;
+        let db = run::run_indexed("deep_directory_chains", work.len() as u64, |i, blk| {
+            let (vi, d) = work[i as usize];
+            let mut ops = Vec::new();
+            let mut path = String::new();
+            for k in 0..d {
+                if k > 0 {
+                    path.push('/');
+                }
+                path.push_str(&format!("n{}", k % 10));
+                ops.push(Op::CreateDir { via: 0, path: path.clone(), keep: 0 });
+            }
+            let deepest = path.clone();
+            ops.push(Op::CreateFile { via: 0, path: format!("{}/leaf.txt", deepest), keep: 0 });
+            // every ancestor into the deepest directory: never allowed
+            let mut up = String::new();
+            for k in 0..d {
+                if k > 0 {
+                    up.push('/');
+                }
+                up.push_str(&format!("n{}", k % 10));
+                if k == 0 || k == d / 2 || k + 1 == d {
+                    ops.push(Op::Rename { via: 0, src: up.clone(), dvia: 0, dst: format!("{}/moved", deepest) });
+                }
+            }
+            ops.push(Op::OpenFile { via: 0, path: format!("{}/LEAF.TXT", deepest), keep: 0 });
+            ops.push(Op::List { via: 0 });
+            if d >= 2 {
+                // the deepest directory up to the root (allowed), then its former parent below it (allowed now)
+                ops.push(Op::Rename { via: 0, src: deepest.clone(), dvia: 0, dst: "top".into() });
+                let parent = deepest.rsplit_once('/').map(|p| p.0.to_string()).unwrap_or_default();
+                ops.push(Op::Rename { via: 0, src: "n0".into(), dvia: 0, dst: "top/old chain".into() });
+                ops.push(Op::Rename { via: 0, src: "top".into(), dvia: 0, dst: format!("top/old chain/{}/x", parent.split_once('/').map(|p| p.1).unwrap_or("")) });
+            }
+            ops.push(Op::Remount { how: 0 });
+            ops.push(Op::List { via: 0 });
+            let case = Case { vol: vols2[vi].clone(), ops };
+            let out = hist::eval_case(hp_ref, &case);
+            blk.record(&out, || serde_json::json!({"vol": vols2[vi], "depth": d}));
+            out.violation.map(|m| run::Failure { message: format!("chain of {} directories: {}", d, m), case: serde_json::to_value(&case).unwrap(), kind: "history".into() })
+        });
+        rep.add(db);
+    }
     if !rep.failed() {
         rep.add(hist::random_block(&hp, "random_histories", seed, tier.pick(hp.quick_cases, hp.thorough_cases)));
     }
